@@ -112,7 +112,13 @@ def replay_path(r, g, path, roots, names):
     """The path fixes the ACTIONS; where the specification allows several outcomes of an action (whether a stale first message gets as far
     as having its sender's identity remembered depends on key ids coinciding), the successor that matches what the code did is followed."""
     init, steps = g.path_steps(path)
-    rp = Replay(roots, names, init["auto"])
+    try:
+        rp = Replay(roots, names, init["auto"])
+    except core.MachineryError:
+        raise
+    except Exception as ex:
+        r.violation("exception:boot:%s" % type(ex).__name__, "the accounts cannot log in and publish their keys: %r" % (ex,), {"history": []})
+        return
     trail = []
     cur = g.edges[path[0]][0]
     try:
